@@ -215,7 +215,13 @@ func (k *Kernel) unregister(w *waiter) {
 	}
 	for i, x := range *q {
 		if x == w {
-			*q = append((*q)[:i], (*q)[i+1:]...)
+			// manual shift: copy/append-slice report to the race detector even from norace code
+			a := *q
+			for j := i; j+1 < len(a); j++ {
+				a[j] = a[j+1]
+			}
+			a[len(a)-1] = nil
+			*q = a[:len(a)-1]
 			break
 		}
 	}
